@@ -185,6 +185,8 @@ pub enum Op {
 	/// A forged `channel_ready` for the channel between `to` and `from`, announcing point number `variant`,
 	/// is handed to `to` as if `from` had sent it
 	ForgeChannelReady { to: usize, from: usize, variant: u8 },
+	/// The miner confirms what is minable in the mempool, then `n - 1` empty blocks; every node is told
+	MineBlocks { n: u32 },
 }
 
 #[derive(Clone, Copy, Debug, PartialEq, Eq)]
@@ -705,6 +707,15 @@ impl WorldSys {
 						self.w.obs.push(Obs::Api { node: 0, what: "confirm-funding-skipped".into(), ok: true, detail: String::new() });
 					},
 				}
+			},
+			Op::MineBlocks { n } => {
+				self.w.mine_mempool_block();
+				if n > 1 {
+					self.w.mine_empty(n - 1);
+				}
+				self.w.sync_all();
+				self.w.pump();
+				self.w.obs.push(Obs::Api { node: 0, what: format!("mine_blocks {}", n), ok: true, detail: String::new() });
 			},
 			Op::FailHeld { pay } => {
 				let (to, hash) = (self.w.payments[pay].to, self.w.payments[pay].hash);
